@@ -528,7 +528,7 @@ def gen_expr(repo, res):
 
 @rule(
     "GEN-FORM",
-    ["C06", "C18"],
+    ["C06", "C18", "C19"],
     "C/form.py and numba/form.py `generator` (with common.integral_data) are interpreted from source on sample FormIR "
     "records (unsorted subdomain ids, the default integral, groups with two cell types, empty types, coefficients that "
     "dropped out, scalar and tensor constants, a missing element hash). The emitted text is read back: offsets must be "
@@ -659,6 +659,29 @@ def gen_form(repo, res):
             n_r, cr = arr("constant_ranks")
             if ir.f["constant_ranks"] and (cr is None or [int(x) for x in cr] != ir.f["constant_ranks"]):
                 res.fail(key, f"{be} `{label}`: constant ranks = {cr}, IR has {ir.f['constant_ranks']}", loc, props=props)
+            # constant shapes: every shape array the pointer table names is declared, with the shape of that constant
+            tbl = re.search(rf"constant_shapes_{ir.f['name']}(?:\[\d+\])? = [\{{\[]([^;]*?)[\}}\]];?\s*$", text, re.M | re.S) if ir.f["num_constants"] else None
+            if ir.f["num_constants"]:
+                entries = [x.strip() for x in (tbl.group(1) if tbl else "").replace("\n", " ").split(",") if x.strip()]
+                if len(entries) != ir.f["num_constants"]:
+                    res.fail(key, f"{be} `{label}`: constant_shapes has {len(entries)} entries for {ir.f['num_constants']} constants ({entries})", loc, props=props + ("C19",))
+                for ci, (ent, shp) in enumerate(zip(entries, ir.f["constant_shapes"])):
+                    if len(shp) == 0:
+                        if ent not in ("NULL", "None"):
+                            res.fail(key, f"{be} `{label}`: scalar constant {ci} has shape entry `{ent}`", loc, props=props)
+                        continue
+                    n_s, sv = arr(f"constant_shapes") if False else (None, None)
+                    if be == "C":
+                        dm = re.search(rf"\b{re.escape(ent)}\[(\d+)\] = \{{([^}}]*)\}}", text)
+                    else:
+                        dm = re.search(rf"\b{re.escape(ent)} = \[([^\]]*)\]", text)
+                    if not dm:
+                        res.fail(key, f"{be} `{label}`: constant {ci} (shape {shp}) points to `{ent}`, which is never declared: the generated source references an "
+                                 "undeclared identifier when a scalar constant precedes a tensor constant", loc, props=props + ("C19",))
+                        continue
+                    vals_ = [int(x) for x in dm.group(dm.lastindex).split(",") if x.strip()]
+                    if vals_ != list(shp):
+                        res.fail(key, f"{be} `{label}`: `{ent}` holds {vals_}, the shape of constant {ci} is {list(shp)}", loc, props=props)
             n_h, hs = arr("finite_element_hashes")
             if ir.f["finite_element_hashes"]:
                 want_h = [0 if h is None else h for h in ir.f["finite_element_hashes"]]
